@@ -354,17 +354,25 @@ prop(
     design_ref="DESIGN.md section 3, C13",
     groups=[(["./plugin/action/mask"], r"^\(\*Mask\)\.(maskValue|maskSection)$"),
             (["./plugin/input/k8s"], r"^\(\*MultilineAction\)\.(Do|resetLogBuf)$"),
-            (["./plugin/action/join", "./pipeline"], r"^\(\*Plugin\)\.(Do|flush|isNextOK)$")],
-    canaries=[("./plugin/action/mask", "replay/C17/zz_replay_c17_test.go", "TestVerifReplayC17Tail"), ("./plugin/input/k8s", "replay/C13/zz_replay_c13_test.go", "TestVerifReplayC13")],
+            (["./plugin/action/join", "./pipeline"], r"^\(\*Plugin\)\.(Do|flush|isNextOK)$"),
+            (["./plugin/action/convert_utf8_bytes"], r"^\(\*Plugin\)\.convert$"),
+            (["./plugin/action/hash/normalize"], r"^(hasPattern|\(\*tokenizer\)\.(nextToken|processOpenBracket|processCloseBracket|processQuotes)|\(\*tokenNormalizer\)\.normalizeByTokenizer)$"),
+            (["./cfg/substitution"], r"^\(\*(CutFilter|TrimToFilter|RegexFilter)\)\.Apply$"),
+            (["./cfg/matchrule"], r"^\(\*Rule\)\.match$")],
+    canaries=[("./plugin/action/mask", "replay/C17/zz_replay_c17_test.go", "TestVerifReplayC17Tail"), ("./plugin/input/k8s", "replay/C13/zz_replay_c13_test.go", "TestVerifReplayC13"),
+              ("./cfg/substitution", "replay/C13/trimto_empty_cutset_test.go", "TestVerifTrimToEmptyCutset")],
     known_canaries=[("./plugin/action/mask", "replay/C17/zz_replay_c17_test.go", "TestVerifReplayC17Order")],
     claim=(
         "No-panic of the index / slice arithmetic on event bytes in the action code brought under contract so far: mask.maskValue and maskSection (every index into the submatch vector and every slice of the value, for all values and all validated group lists), "
         "the k8s multiline action (every slice of the escaped log fragment, for every event content - empty string, non-string value, fragments shorter than the newline marker - under the state invariant 1 <= len(buffer) <= max_event_size-2 which Do itself preserves), "
-        "and the join action's Do / flush (its two Panicf guards are the only exits; the single-step table is proved under C15). Two fixes (mask tail, k8s multiline) and one open known finding (mask: nested / out-of-order groups) came out of it."
+        "the join action's Do / flush (its two Panicf guards are the only exits; the single-step table is proved under C15), "
+        "convert_utf8_bytes' escape-sequence rewriter (every slice of the field value, for every string), the hash action's bracket / quote tokenizer (nextToken, processQuotes, processOpen/CloseBracket and the caller's copy loop: every token lies inside the data and tokens never go backwards, by an inductive invariant over the scan), "
+        "the modify action's field filters (cut, trim_to, re: results are sub-slices of the value; group indices within the submatch vector) and the match-rule comparison (prefix / suffix cuts). "
+        "Three fixes (mask tail, k8s multiline, trim_to with an empty cutset) and one open known finding (mask: nested / out-of-order groups) came out of it."
     ),
     undecided=[
         "the full statement (27 plugins x every accepted configuration x every JSON event, result still well-formed JSON) lives in insane-json's mutable node graph (third-party): not applicable to contracts on file.d code",
-        "convert_utf8_bytes, hash, rename, json_extract index arithmetic: not yet under contract; max_event_size of 1 or 2 with the k8s multiline action is outside the contract (requires)",
+        "rename, json_extract, cardinality, parse_re2 index arithmetic (configuration-sized tables): not under contract; the lexmachine scanner path of the hash normalizer is third-party; max_event_size of 1 or 2 with the k8s multiline action is outside the contract (requires)",
         "stateful sequences of events",
     ],
     assumptions=["as C17"],
